@@ -23,6 +23,8 @@ CONSTANTS
   PruneKeepsEqual = FALSE
   PartialCommit = FALSE
   UpdateTouchesTruth = FALSE
+  TRank <- RankT
+  LastMergeWins = FALSE
 INVARIANT OneRecordPerTasking
 INVARIANT NoRecordWithoutTasking
 INVARIANT PointingReflectsTasking
